@@ -275,7 +275,7 @@ fn thread_body(t: usize, nthreads: usize, nops: u32, cfg: GenCfg, errs: Arc<Mute
                 // ---- parse by several routes
                 0 | 1 | 2 => {
                     let (j, text) = gen_doc(&cfg);
-                    let route = draw(10);
+                    let route = draw(12);
                     tr!("T{} parse route={} doc={}", t, route, oracle::truncate(&text));
                     let id = new_doc_id();
                     trace::bump(C::dom_parsed_roots);
@@ -340,6 +340,48 @@ fn thread_body(t: usize, nthreads: usize, nops: u32, cfg: GenCfg, errs: Arc<Mute
                             let v = vs.pop().unwrap();
                             libcall("drop vec", move || drop(vs))?;
                             v
+                        }
+                        10 | 11 => {
+                            // typed targets: the document is asked for as an Array and as an Object, at the top
+                            // level or as a struct field (the deserializer's shared arena). The kind that does
+                            // not match must be refused, and a refusal must not keep anything alive.
+                            #[derive(Deserialize)]
+                            struct WA {
+                                #[allow(dead_code)]
+                                k: u8,
+                                v: sonic_rs::Array,
+                            }
+                            #[derive(Deserialize)]
+                            struct WO {
+                                #[allow(dead_code)]
+                                k: u8,
+                                v: sonic_rs::Object,
+                            }
+                            let wrapped = crate::heap::lib(|| format!("{{\"k\":1,\"v\":{}}}", text));
+                            let inside = route == 11;
+                            desers(1);
+                            let r = libcall("typed targets", || {
+                                let a: Result<sonic_rs::Array, _> = if inside { sonic_rs::from_str::<WA>(&wrapped).map(|w| w.v) } else { sonic_rs::from_str::<sonic_rs::Array>(&text) };
+                                let o: Result<sonic_rs::Object, _> = if inside { sonic_rs::from_str::<WO>(&wrapped).map(|w| w.v) } else { sonic_rs::from_str::<sonic_rs::Object>(&text) };
+                                (a.map(|x| x.into_value()).map_err(|e| e.to_string()), o.map(|x| x.into_value()).map_err(|e| e.to_string()))
+                            });
+                            desers(-1);
+                            let (a, o) = r?;
+                            trace::bump(C::dom_rejected_ops);
+                            let (want_a, want_o) = (matches!(j, J::Arr(_)), matches!(j, J::Obj(_)));
+                            if a.is_ok() != want_a || o.is_ok() != want_o {
+                                return Err(Violation::new("mismatch/typed-target", format!("{}: as Array ok={} as Object ok={} for the document {}", what, a.is_ok(), o.is_ok(), oracle::truncate(&text))));
+                            }
+                            match (a, o) {
+                                (Ok(v), _) | (_, Ok(v)) => v,
+                                _ => {
+                                    // a scalar document: nothing to keep; the refusals must have released everything
+                                    release(&[id]);
+                                    scrub(text);
+                                    check_conservation(&what)?;
+                                    continue;
+                                }
+                            }
                         }
                         7 => {
                             // one deserializer: a first value (dropped), this value, then a malformed
